@@ -37,6 +37,10 @@ PADDING = [
 
 def run(ctx):
     rep = ctx.report
+    rep.rule('R12.11', 'cells are compared with the caller\'s `missing` value by equality, never by identity')
+    rep.rule('R12.12', 'rowgetter returns selectors that raise IndexError on a short row (subscript / itemgetter, never a slice)')
+    r1211(ctx, rep)
+    r1212(ctx, rep)
     from ..typestate import check_sentinels as _sentinels
     rep.rule('R12.10', 'a local that starts as None is not compared (==, !=) with per-row values before it was tested for None: None is a legal key and cell value')
     ctx.floor('sentinel_scan_functions', _sentinels(ctx, rep, 'R12.10', ctx.functions(['petl.transform', 'petl.util.base'])), 200)
@@ -411,3 +415,79 @@ def r125(ctx, rep):
             else:
                 rep.violated('R12.5', it, c, 'the view does not hand its `missing` argument to %s unchanged' % f.name, call)
     ctx.floor('missing_forwarding_sites', n, 30)
+
+
+# ----------------------------------------------------------------------- R12.11
+def r1211(ctx, rep):
+    """`missing` is a value chosen by the caller ("which value is treated as
+    missing"): cells are compared with it by equality.  An identity test
+    (`cell is missing`) only recognises the very object the caller passed, so a
+    cell that merely equals it -- a string read from a file, a float, a large
+    int -- is not treated as missing (nothing is filled / padded cells are not
+    recognised)."""
+    n = 0
+    for fn in ctx.functions(['petl.transform', 'petl.util.base', 'petl.util.materialise']):
+        names = set()
+        f = fn
+        while f is not None:
+            if 'missing' in f.params:
+                names.add('missing')
+            f = f.parent
+        if not names and not any(isinstance(x, ast.Attribute) and x.attr == 'missing' for x in own_nodes(fn.node)):
+            continue
+        for node in own_nodes(fn.node):
+            if not (isinstance(node, ast.Compare) and len(node.ops) == 1):
+                continue
+            sides = [node.left, node.comparators[0]]
+            txt = [norm(s) for s in sides]
+            if not any(t in ('missing', 'self.missing') for t in txt):
+                continue
+            other = sides[1] if txt[0] in ('missing', 'self.missing') else sides[0]
+            n += 1
+            if isinstance(node.ops[0], (ast.Is, ast.IsNot)) and not (isinstance(other, ast.Constant) and other.value is None):
+                rep.violated('R12.11', fn, norm(node),
+                             'a cell is compared with the caller\'s `missing` value by identity: a cell that equals the value '
+                             'but is another object (text read from a file, a float, a large int) is not recognised as '
+                             'missing, so it is not filled / replaced although it was asked to be', node)
+            else:
+                rep.held('R12.11', fn, norm(node), 'compared by value', node)
+    ctx.floor('missing_comparisons', n, 5)
+
+
+# ----------------------------------------------------------------------- R12.12
+def r1212(ctx, rep):
+    """rowgetter(*indices) is the field selector of cut, cutout, movefield,
+    the joins ...: its callers pad short rows in an `except IndexError` branch,
+    so the callable it returns has to raise IndexError when a requested
+    position is beyond the row.  Subscripting and operator.itemgetter do; a
+    slice never raises, it silently returns fewer cells."""
+    fn = ctx.project.need_fn('petl.util.base:rowgetter')
+    n = 0
+    for node in own_nodes(fn.node):
+        if not isinstance(node, ast.Return) or node.value is None:
+            continue
+        n += 1
+        v = node.value
+        c = 'return ' + norm(v)[:60]
+        if isinstance(v, ast.Lambda):
+            params = {a.arg for a in v.args.args}
+            slices = [s for s in ast.walk(v.body) if isinstance(s, ast.Subscript) and isinstance(s.slice, ast.Slice)
+                      and isinstance(s.value, ast.Name) and s.value.id in params]
+            subs = [s for s in ast.walk(v.body) if isinstance(s, ast.Subscript) and not isinstance(s.slice, ast.Slice)
+                    and isinstance(s.value, ast.Name) and s.value.id in params]
+            if slices:
+                rep.violated('R12.12', fn, c,
+                             'the selector takes a slice of the row (`%s`): on a row that is too short a slice returns fewer '
+                             'cells instead of raising IndexError, so the callers\' padding branch never runs and the output '
+                             'row comes out shorter than the header' % norm(slices[0]), slices[0])
+            elif subs or isinstance(v.body, ast.Call) and norm(v.body.func) == 'tuple' and not v.body.args:
+                rep.held('R12.12', fn, c, 'indexes each position (raises IndexError on a short row)', node)
+            else:
+                rep.undecided('R12.12', fn, c, 'selector shape not recognised', node)
+        elif isinstance(v, ast.Call) and norm(v.func) in ('operator.itemgetter', 'itemgetter') and \
+                len(v.args) == 1 and isinstance(v.args[0], ast.Starred) and norm(v.args[0].value) == fn.vararg:
+            rep.held('R12.12', fn, c, 'operator.itemgetter over the requested positions', node)
+        else:
+            rep.undecided('R12.12', fn, c, 'selector shape not recognised', node)
+    if n < 3:
+        raise AnalysisError('anchor vanished: rowgetter returns %d selectors' % n)
